@@ -11,7 +11,7 @@ CHECKS = {
    note="Backend selection by seccomp ENOSYS on the library thread (verified per case by a probe); differences must reproduce in 4 runs because openat2 fails spuriously under system-wide mount/rename activity; >40 traversals and flag sets the kernel rejects are outside the domain; tmpfs only.",
    technique="property-based differential testing (proptest) across two seccomp-selected kernel configurations"),
  "C05": dict(level="exploration", ref="DESIGN.md §3 C05, §2.6",
-   text="Every system call the library thread issues inside generated calls (all operations, Rust and C API, six kernel configurations, cold start) is reported by a seccomp user-notification supervisor with what its dirfd refers to, and judged by an explicit discipline predicate (single component, never followed, fixed RESOLVE masks, literal white-list for AT_FDCWD/absolute shapes, close-on-exec requested and observed, O_NOCTTY, no legacy syscalls). A second driver repeats workloads with one failing system call (EINTR, EAGAIN, ENOMEM, EMFILE, EIO, ENOSYS at a selected index) and judges the error-path execution by the same predicate. Covers the executions generated, not all executions.",
+   text="Every system call the library thread issues inside generated calls (all operations, Rust and C API, six kernel configurations, cold start) is reported by a seccomp user-notification supervisor with what its dirfd refers to, and judged by an explicit discipline predicate (single component, never followed, fixed RESOLVE masks, literal white-list for AT_FDCWD/absolute shapes, close-on-exec requested and observed, O_NOCTTY, no legacy syscalls). A second driver repeats workloads with one failing system call (EINTR, EAGAIN, ENOMEM, EMFILE, EIO, ENOSYS at a selected index) and judges the error-path execution by the same predicate; a third driver fails every system call of one directed call in turn (EACCES, EINTR, ENOMEM, EMFILE). Covers the executions generated, not all executions.",
    note="Sees only syscalls in the filter table (all path-taking and fd-creating calls incl. legacy spellings); dirfd classification is the supervisor's fstat/fstatfs at call time; white-list is literal and printed in evidence.",
    technique="trace-invariant checking over generated workloads (proptest + seccomp user-notification observer)"),
  "C11": dict(level="exploration", ref="DESIGN.md §3 C11",
@@ -39,8 +39,8 @@ CHECKS = {
    note="The entry a path names is determined by the harness's own openat2 resolution of the parent before the call; scheduler granularity = syscalls.",
    technique="property-based testing with whole-filesystem snapshot diff and deterministic syscall-level scheduling"),
  "C14": dict(level="exploration", ref="DESIGN.md §3 C14",
-   text="Twin trees: the library operation on one, on the other the harness's own openat2(RESOLVE_IN_ROOT) of the parent plus the single raw *at syscall on (parent, final name); outcomes (errno), resulting trees and create_file descriptor identity/flags must match. Search over trees, operations, spellings, flags, modes, umask, backends, APIs.",
-   note="Kernel *at calls are the reference; O_CREAT|O_PATH excluded here (C03); >40 traversals outside the domain; tmpfs only.",
+   text="Twin trees: the library operation on one, on the other the harness's own openat2(RESOLVE_IN_ROOT) of the parent plus the single raw *at syscall on (parent, final name); outcomes (errno), resulting trees and create_file descriptor identity/flags must match. Search over trees, operations, spellings (incl. NUL in the final component), flags, modes, umask, backends, APIs; plus an enumerated driver that sets fs.protected_regular / fs.protected_fifos to 0/1/2 and compares create_file on existing files and FIFOs in sticky directories with the raw O_CREAT open as the same user.",
+   note="Kernel *at calls are the reference; O_CREAT|O_PATH excluded here (C03); the second driver temporarily changes two system-wide sysctls (lock file, restored by guard and by the next run); >40 traversals outside the domain; tmpfs only.",
    technique="property-based differential testing against raw *at system calls on a twin tree"),
  "C06": dict(level="exploration", ref="DESIGN.md §3 C06",
    text="In a private mount namespace the harness places generated sets of tmpfs/bind over-mounts on procfs entries (files, dirs, links, magic-links) and creates every kind of handle itself, so it knows which handles can see which mounts and which dentries each request walks through; every open/open_follow/readlink result is compared by identity with the same lookup on a pristine descriptor of the same procfs instance made before the mounts; visible over-mounts on the way must give EXDEV. A second driver re-runs one non-following call with one over-mount appearing / blinking / vanishing before every one of its system calls (placements enumerated through the syscall gate): success must be the genuine object, private handles must be unaffected.",
